@@ -304,7 +304,7 @@ def check_imm_size(imm, size):
         return int8(imm)
     elif size == s08 and -0x80 <= k < 0x80 and getattr(imm, 'size', 0) == 16:
         return int8(int16(imm))
-    elif size == u16 and 0 <= i < 0x10000:
+    elif size == u16 and -0x8000 <= i < 0x10000:
         return uint16(imm)
     elif size == s16 and -0x8000 <= j < 0x8000:
         return int16(imm)
@@ -3118,7 +3118,7 @@ class x86_mn(x86_mn_base):
                         log.debug("not imm 2")
                         good_c = False
                         break
-                    taille, fmt, t = x86mndb.get_im_fmt(c.modifs, self.admode, dib)
+                    taille, fmt, t = x86mndb.get_im_fmt(c.modifs, self.mnemo_mode, dib)
                     r = args_sample.pop()
                     v = check_imm_size(r[x86_afs.imm], t)
                     if v is None:
